@@ -107,12 +107,29 @@ Theorem C18_layout_independent : forall nd L s d L' s' d',
 Proof. exact isequal_arrL_spec. Qed.
 Print Assumptions C18_layout_independent.
 
-(* record of the behaviour BEFORE the fix "scalar difference in the common type": with an unsigned operand the
-   subtraction wrapped and closeness was order dependent (the class stays listed until that fix is in /repo) *)
-Theorem C18_isclose_unsigned_refuted : exists eps a b,
-  close eps a b = true /\ close_unsigned 64 eps a b = false /\ close_unsigned 64 eps b a = true.
-Proof. exists 5, 24, 28. vm_compute. repeat split. Qed.
-Print Assumptions C18_isclose_unsigned_refuted.
+(* integer element types.  Every integer comparison is carried out in meta::common_type_t of the two element types
+   (the wider width, signed when either is signed).  A comparison in a type in which both values are representable is
+   the comparison of the values — the model's mathematical integers ... *)
+Theorem C18_integer_comparison_exact_when_representable : forall s w a b,
+  0 < w -> in_range s w a -> in_range s w b -> eq_in_type s w a b = (a =? b).
+Proof. exact eq_in_type_exact. Qed.
+Print Assumptions C18_integer_comparison_exact_when_representable.
+
+(* ... which fails, in the code as it is, exactly for mixed signedness: the common type of an unsigned and a signed
+   operand is signed and no wider than the unsigned one, so uint8 200 equals int8 -56 and uint16 65535 equals int8 -1
+   (the analogue of size_t(-1) == -1).  Known finding isequal-mixed-signedness-common-type. *)
+Theorem C18_isequal_mixed_signedness_refuted :
+  (eq_common false 8 true 8 200 (-56) = true /\ in_range false 8 200 /\ in_range true 8 (-56) /\ (200 =? -56) = false) /\
+  (eq_common false 16 true 8 65535 (-1) = true /\ (65535 =? -1) = false).
+Proof. vm_compute. repeat split; discriminate. Qed.
+Print Assumptions C18_isequal_mixed_signedness_refuted.
+
+(* apply_isequal / apply_isclose: their maybe/maybe arm is the public entry's maybe arm (two empty optionals equal
+   without being dereferenced, empty vs present different, present vs present by content) *)
+Theorem C18_apply_maybe_arm : forall nd x y,
+  apply_mm (isequal nd) x y = isequal nd (Maybe x) (Maybe y).
+Proof. intros nd [a|] [b|]; reflexivity. Qed.
+Print Assumptions C18_apply_maybe_arm.
 
 (* ---------- non-vacuity ---------- *)
 Example C18_nonvacuous_1 :
@@ -139,4 +156,16 @@ Example C18_nonvacuous_4 :
   isequal_arrL true RowMajor [2;3] [0;1;2;3;4;5] ColMajor [2;3] [0;3;1;4;2;5] = Ret true
   /\ isequal_arrL true RowMajor [2;3] [0;1;2;3;4;5] ColMajor [2;3] [0;1;2;3;4;5] = Ret false
   /\ logical ColMajor [2;3] [0;1;2;3;4;5] = [0;2;4;1;3;5].
+Proof. vm_compute. repeat split. Qed.
+(* regression examples for repaired behaviours (each was a known finding with a refutation before its fix:
+   isequal of integer elements of different WIDTH narrowed to the left type; apply_isequal dereferenced two empty
+   optionals; isclose subtracted unsigned scalars in their own type) *)
+Example C18_regression_integer_widths :
+  eq_common true 8 true 32 1 257 = false /\ eq_common true 32 true 8 257 1 = false
+  /\ eq_common true 16 true 64 5 65541 = false /\ eq_common true 32 true 64 7 4294967303 = false
+  /\ eq_common false 8 true 32 200 (-56) = false /\ eq_common true 8 true 32 (-56) (-56) = true.
+Proof. vm_compute. repeat split. Qed.
+Example C18_regression_apply_empty : forall cmp, apply_mm cmp None None = Ret true /\ apply_mm cmp None (Some (Num 1)) = Ret false.
+Proof. intros. split; reflexivity. Qed.
+Example C18_regression_isclose_integer_order : close 5 24 28 = true /\ close 5 28 24 = true /\ close 5 24 29 = false.
 Proof. vm_compute. repeat split. Qed.
